@@ -108,6 +108,10 @@ pub fn generated(opts: &Opts, sink: &mut Sink) {
             *features.entry(k).or_insert(0) += v;
         }
         jobs.push((i, "wt".into(), p.source(), p.request(fuel, b"")));
+        let sugared = p.source_sugared();
+        if sugared != p.source() {
+            jobs.push((i, "wt-sugar".into(), sugared, p.request(fuel, b"")));
+        }
         let mut r3 = rng.fork();
         for _ in 0..2 {
             if let Some((m, name)) = mutate(&p, &mut r3) {
@@ -138,7 +142,7 @@ pub fn generated(opts: &Opts, sink: &mut Sink) {
                 if end.starts_with("stuck:") || end.starts_with("panic:") {
                     sink.violation("c01-accepted-program-stuck", serde_json::json!({"kind": kind, "end": end, "source": source}));
                 }
-                if kind != "wt" {
+                if !kind.starts_with("wt") {
                     // a definite type error was accepted by the real checker
                     sink.violation("c03-definite-error-accepted", serde_json::json!({"mutation": kind, "source": source, "run": ans}));
                 }
@@ -148,7 +152,7 @@ pub fn generated(opts: &Opts, sink: &mut Sink) {
                 }
             }
             | None => {
-                if kind == "wt" {
+                if kind.starts_with("wt") {
                     // a well-typed, fully annotated program was not accepted
                     sink.count("gen_wt_not_accepted");
                     if sink.extra.len() < 6 {
